@@ -138,15 +138,24 @@ var universe = []*elem{
 	{name: "v12a", src: "(vector 1 2)", quick: true, m: &mv{k: "vec", kids: []*mv{mint("1"), mint("2")}}},
 	{name: "v12b", src: "(vector 1 2)", quick: true, m: &mv{k: "vec", kids: []*mv{mint("1"), mint("2")}}},
 	{name: "v12d", src: "(vector 1 2.0d0)", quick: true},
-	{name: "vsa", src: `(vector "a")`},
-	{name: "vsA", src: `(vector "A")`},
+	{name: "vsa", src: `(vector "a")`, quick: true},
+	{name: "vsA", src: `(vector "A")`, quick: true},
+	// the same elements in vectors of another make (element type, adjustability, fill pointer, octets) and vectors
+	// holding case-differing strings inside other containers: equal and equalp walk containers with different code
+	{name: "v12fix", src: "(make-array 2 :element-type 'fixnum :initial-contents '(1 2))", quick: true},
+	{name: "v12nadj", src: "(make-array 2 :adjustable nil :initial-contents '(1 2))", quick: true},
+	{name: "v12fp", src: "(let ((v (make-array 3 :fill-pointer 2 :initial-element 0))) (setf (aref v 0) 1) (setf (aref v 1) 2) v)", quick: true},
+	{name: "lvsa", src: `(list (vector "a"))`, quick: true},
+	{name: "lvsA", src: `(list (vector "A"))`, quick: true},
+	{name: "vvsa", src: `(vector (vector "a") 1)`},
+	{name: "vvsA", src: `(vector (vector "A") 1)`},
 	{name: "vca", src: `(vector #\a)`},
 	{name: "vcA", src: `(vector #\A)`},
 	{name: "arr_a", src: "(make-array '(2 2) :initial-contents '((1 2) (3 4)))", quick: true},
 	{name: "arr_b", src: "(make-array '(2 2) :initial-contents '((1 2) (3 4)))", quick: true},
 	{name: "bv_a", src: "#*101"},
 	{name: "bv_b", src: "#*101"},
-	{name: "oc_a", src: "(coerce '(1 2) 'octets)"},
+	{name: "oc_a", src: "(coerce '(1 2) 'octets)", quick: true},
 	{name: "oc_b", src: "(coerce '(1 2) 'octets)"},
 	// ---- tables, instances, functions
 	{name: "h0a", src: "(make-hash-table)", quick: true, m: &mv{k: "table"}},
